@@ -340,8 +340,9 @@ func (o *Op) Line(u *Universe) string {
 
 // Impl wraps a real ShutterApp.
 type Impl struct {
-	App *app.ShutterApp
-	U   *Universe
+	App     *app.ShutterApp
+	U       *Universe
+	Gobpath string // when set, the replica persists its state (app.PersistMinDuration decides how often)
 }
 
 func NewImpl(u *Universe) *Impl { return &Impl{App: app.NewShutterApp(), U: u} }
@@ -424,6 +425,7 @@ func (im *Impl) Do(o *Op) (res RawResp) {
 	switch o.Kind {
 	case "init":
 		im.App = app.NewShutterApp()
+		im.App.Gobpath = im.Gobpath
 		im.App.DevMode = o.Init.DevMode
 		fh := &app.ForkHeights{CheckInUpdateNew: app.ForkHeight{Enabled: o.Init.ForkOn, Height: o.Init.ForkHeight}}
 		gen := app.NewGenesisAppState(o.Init.Keypers, int(o.Init.Threshold), o.Init.InitialEon, fh)
